@@ -138,6 +138,7 @@ func (p *recPersister) Enabled(ctx context.Context, s channel.Source) error {
 	tx := s.CurrentTX()
 	p.w.tick()
 	p.w.Enabled = append(p.w.Enabled, enabledEv{p.who, s.ID(), tx.Version, fx.Enc(tx.State), fullySigned(s.Params(), tx), p.w.clock, tx.IsFinal})
+	p.w.Txs = append(p.w.Txs, txRec{p.who, s.ID(), tx.Clone(), p.w.clock})
 	return p.PersistRestorer.Enabled(ctx, s)
 }
 
@@ -180,8 +181,19 @@ type Party struct {
 	nonce         byte
 }
 
+// txRec is a fully signed transaction as recorded by a party's persister (the adversary of C04
+// registers such copies).
+type txRec struct {
+	Who int
+	Ch  channel.ID
+	Tx  channel.Transaction
+	At  int
+}
+
 // World is one closed system of clients.
 type World struct {
+	Txs     []txRec
+	NoWatch map[int]bool // parties that do not run Channel.Watch although World.Watch is set
 	Bus     *Bus
 	L       *Ledger // nil: stub funder / adjudicator
 	P       []*Party
@@ -219,7 +231,7 @@ func (p *Party) nextNonce() client.ProposalOpts {
 // NewWorld creates n real clients. With ledger != nil the clients fund / register / withdraw on
 // the strict ledger and run the real watcher on top of it.
 func NewWorld(n int, ledger *Ledger, watch bool) *World {
-	w := &World{L: ledger, Asset: fx.Assets[0], Watch: watch}
+	w := &World{L: ledger, Asset: fx.Assets[0], Watch: watch, NoWatch: map[int]bool{}}
 	w.Bus = &Bus{w: w, subs: map[wire.AddrKey]wire.Consumer{}, seq: map[string]int{}, dlv: map[string]int{}}
 	rng := rand.New(rand.NewSource(3))
 	for i := 0; i < n; i++ {
@@ -243,7 +255,7 @@ func NewWorld(n int, ledger *Ledger, watch bool) *World {
 		p.C.EnablePersistence(&recPersister{PersistRestorer: persistence.NonPersistRestorer, w: w, who: i})
 		p.C.OnNewChannel(func(ch *client.Channel) {
 			p.Chans = append(p.Chans, ch)
-			if w.Watch {
+			if w.Watch && !w.NoWatch[p.Idx] {
 				vsched.GoNamed("watch-"+p.Name, func() { ch.Watch(&evHandler{p}) }) //nolint:errcheck
 			}
 		})
